@@ -335,6 +335,31 @@ def toast_tile_get_coords(tile):
     )
 
 
+def _level0_coords(coordsys):
+    """
+    Get the coordinates of the pixel centers of the level-0 TOAST tile, which
+    covers the whole sphere: the four level-1 tiles sampled at 128x128.
+    """
+    lons = np.empty((256, 256))
+    lats = np.empty((256, 256))
+
+    for tile in _create_level1_tiles(coordsys):
+        sub_lons, sub_lats = subsample(
+            tile.corners[0],
+            tile.corners[1],
+            tile.corners[2],
+            tile.corners[3],
+            128,
+            tile.increasing,
+        )
+        iy = slice(128 * tile.pos.y, 128 * (tile.pos.y + 1))
+        ix = slice(128 * tile.pos.x, 128 * (tile.pos.x + 1))
+        lons[iy, ix] = sub_lons
+        lats[iy, ix] = sub_lats
+
+    return lons, lats
+
+
 def toast_pixel_for_point(depth, lat, lon, coordsys=ToastCoordinateSystem.ASTRONOMICAL):
     """
     Identify the pixel within a TOAST tile at a given depth that contains the
@@ -665,7 +690,7 @@ def sample_layer(
     from .pyramid import Pyramid
 
     p = Pyramid.new_toast(depth, coordsys=coordsys)
-    proc = ToastSampler(pio, sampler, True, format=format)
+    proc = ToastSampler(pio, sampler, True, format=format, coordsys=coordsys)
     p.visit_leaves(proc.visit_callback, parallel=parallel, cli_progress=cli_progress)
 
 
@@ -710,7 +735,7 @@ def sample_layer_filtered(
     from .pyramid import Pyramid
 
     p = Pyramid.new_toast_filtered(depth, tile_filter, coordsys=coordsys)
-    proc = ToastSampler(pio, sampler, False, format=format)
+    proc = ToastSampler(pio, sampler, False, format=format, coordsys=coordsys)
     p.visit_leaves(proc.visit_callback, parallel=parallel, cli_progress=cli_progress)
 
 
@@ -732,6 +757,9 @@ class ToastSampler(object):
     format : optional :class:`str`
         If provided, override the default data storage format of *pio* with the
         named format, one of the values in ``toasty.image.SUPPORTED_FORMATS``.
+    coordsys : optional :class:`ToastCoordinateSystem`
+        The TOAST coordinate system of the pyramid; needed to sample the
+        level-0 tile. Default is :attr:`ToastCoordinateSystem.ASTRONOMICAL`.
 
     Notes
     -----
@@ -739,15 +767,29 @@ class ToastSampler(object):
     the :meth:`toasty.pyramid.Pyramid.visit_leaves` function. This class
     preserves some state between calls to help speed up processing."""
 
-    def __init__(self, pio, sampler, clobber, format=None):
+    def __init__(
+        self,
+        pio,
+        sampler,
+        clobber,
+        format=None,
+        coordsys=ToastCoordinateSystem.ASTRONOMICAL,
+    ):
         self._pio = pio
         self._sampler = sampler
         self._clobber = clobber
         self._format = format
+        self._coordsys = coordsys
         self._invert_into_tiles = pio.get_default_vertical_parity_sign() == 1
 
     def visit_callback(self, pos, tile):
-        lon, lat = toast_tile_get_coords(tile)
+        if tile is None:
+            # The level-0 tile has no Tile geometry of its own: its pixel grid
+            # is the mosaic of the four level-1 tiles at half resolution.
+            lon, lat = _level0_coords(self._coordsys)
+        else:
+            lon, lat = toast_tile_get_coords(tile)
+
         sampled_data = self._sampler(lon, lat)
 
         if self._invert_into_tiles:
